@@ -259,3 +259,10 @@ package nsx
 //vc:  assert[C04] at "ab.adaptGroup(ru.SourceGroups)" @sourceGroupAdapted arg1 == ru.SourceGroups
 //vc:  assert[C04] at "ab.adaptGroup(ru.DestinationGroups)" @destinationGroupAdapted arg1 == ru.DestinationGroups
 //vc:  invariant[C04] 1 "for _, ru := range b.Rules" @groupsOfEveryRuleAdapted forall k int :: { b.Rules[k] } k == rangeindex && 0 <= k ==> srcAdaptedFor == b.Rules[k] && dstAdaptedFor == b.Rules[k]
+
+// checkConfigValidity: a configuration is accepted only if every rule has one
+// source group, one destination group and one service, and every group exactly
+// one expression - the planner looks at element 0 of these lists only.
+//vc:func checkConfigValidity
+//vc:  invariant[C04,C20] 3 "for _, g := range c.Groups" @groupsSoFarHaveOneExpression forall k int :: { c.Groups[k] } 0 <= k && k <= rangeindex ==> len(c.Groups[k].Expression) == 1
+//vc:  ensures[C04,C20] @acceptedGroupsHaveOneExpression result == nil ==> (forall k int :: { c.Groups[k] } 0 <= k && k < len(c.Groups) ==> len(c.Groups[k].Expression) == 1)
